@@ -196,6 +196,41 @@ func TestC03(t *testing.T) {
 		}
 		r.Label("chunks-at-16-bit-limit")
 	}
+	// ---------------- a map without entries, written as a map (what every writer but the Go encoder does), and a
+	// reference to it from a destination of another map type
+	if shard == 0 {
+		tm, nm := hessian.ExtractTypeNameMap([]interface{}{&zoo.MpStrI32{}, &zoo.MpStrStr{}, zoo.PlainMap{"k": 1}})
+		def := "C\x08MpStrI32\x91\x01m"
+		for i, cse := range []struct {
+			what string
+			b    string
+			want interface{}
+		}{
+			{"list{empty map, object whose map field refers to it}", "\x57HZ" + def + "\x60\x51\x91Z",
+				[]interface{}{map[interface{}]interface{}{}, &zoo.MpStrI32{}}},
+			{"list{empty typed map, object whose map field refers to it, the reference again}", "\x57M\x08PlainMapZ" + def + "\x60\x51\x91\x51\x91Z",
+				[]interface{}{zoo.PlainMap{}, &zoo.MpStrI32{}, zoo.PlainMap{}}},
+			{"map{a: empty map, b: object whose map field refers to it}", "H\x01aHZ\x01b" + def + "\x60\x51\x91Z",
+				map[interface{}]interface{}{"a": map[interface{}]interface{}{}, "b": &zoo.MpStrI32{}}},
+			{"list{map of one entry, empty map, objects referring to both}", "\x57H\x01k\x95ZHZ" + def + "\x60\x51\x91\x60\x51\x92Z",
+				[]interface{}{map[interface{}]interface{}{"k": int32(5)}, map[interface{}]interface{}{}, &zoo.MpStrI32{M: map[string]int32{"k": 5}}, &zoo.MpStrI32{}}},
+		} {
+			b := []byte(cse.b)
+			if _, _, derr := refcodec.Decode(b); derr != nil {
+				harnessBug(t, "C03", "empty-map case %d is not well-formed: %v", i, derr)
+			}
+			var out interface{}
+			var err error
+			if pv, st := guard(func() { out, err = hessian.ToObject(b, tm) }); pv != nil || err != nil {
+				directFail(t, "C03", map[string]interface{}{"bytes": hexClip(b, 200), "what": cse.what}, "C03 %s (%x): %v %v [%s]", cse.what, b, err, pv, st)
+			} else if cerr := vcmp.Equal(cse.want, out, nm); cerr != nil {
+				directFail(t, "C03", map[string]interface{}{"bytes": hexClip(b, 200), "what": cse.what}, "C03 %s (%x): %v", cse.what, b, cerr)
+			}
+			r.Eval()
+			r.NonTrivial(av.Hash("emptymapref/" + cse.what))
+		}
+		r.Label("references-to-a-map-without-entries")
+	}
 	// ---------------- random values x random choices
 	cfg := zoo.DefaultCfg()
 	cfg.MaxBig, cfg.Budget, cfg.NoBigStrings = 40, 200, true
